@@ -252,12 +252,18 @@ func Run(ctx *common.Ctx) int {
 		tasks = append(tasks, e1.Task{Check: "C20", Name: fmt.Sprintf("c20/s%d/n%d/W%d/out=%s/b1/p%d", c.s, c.n, c.W, c.o, c.pol), Params: p, Bound: 1, Policy: c.pol, W: c.W, NShards: 1, CostAll: true})
 	}
 	if !quick {
-		// the smallest configurations at deviation bound 4
+		// the smallest configurations as a ladder of deviation bounds 2..6: the number of distinct scheduler-visible
+		// states per bound shows where the exploration stops reaching anything new
 		for _, sN := range []int{1, 2} {
 			for _, o := range []string{"", "nested/a/b"} {
 				p, _ := json.Marshal(Params{S: sN, N: 64, Output: o})
-				for sh := 0; sh < 16; sh++ {
-					tasks = append(tasks, e1.Task{Check: "C20", Name: fmt.Sprintf("c20/s%d/n64/W2/out=%s/b4", sN, o), Params: p, Bound: 4, Policy: 0, W: 2, Shard: sh, NShards: 16, CostAll: true})
+				for b := 2; b <= 6; b++ {
+					if b < 6 && o != "" {
+						continue
+					}
+					for sh := 0; sh < 16; sh++ {
+						tasks = append(tasks, e1.Task{Check: "C20", Name: fmt.Sprintf("c20/ladder/s%d/n64/W2/out=%s/b%d", sN, o, b), Params: p, Bound: b, Policy: 0, W: 2, Shard: sh, NShards: 16, CostAll: true, TrackStates: true})
+					}
 				}
 			}
 		}
@@ -272,8 +278,11 @@ func Run(ctx *common.Ctx) int {
 					bound := 1
 					shards := 1
 					if !quick && s <= 3 && n == 64 {
-						bound = 2
-						shards = 4
+						bound = 3
+						shards = 16
+						if s <= 2 {
+							bound = 4
+						}
 					}
 					if quick && s == 4 && W == 3 && o != "" {
 						continue
@@ -401,12 +410,13 @@ func Run(ctx *common.Ctx) int {
 	}
 	sort.Strings(sigs)
 	cov := common.Coverage{
-		"states":                        maxInt(len(m.States), 1),
-		"transitions":                   maxInt(m.Transitions, 1),
-		"traces_validated_against_impl": m.Execs,
-		"evaluations":                   m.Execs + e2e,
-		"distinct_nontrivial":           len(m.States),
-		"samples":                       samples,
+		"distinct_states_per_bound_ladder": m.StatesPerTask,
+		"states":                           maxInt(len(m.States), 1),
+		"transitions":                      maxInt(m.Transitions, 1),
+		"traces_validated_against_impl":    m.Execs,
+		"evaluations":                      m.Execs + e2e,
+		"distinct_nontrivial":              len(m.States),
+		"samples":                          samples,
 		"rule": "the real (instrumented) rdgen main() runs with os.Args set in a scratch working directory; crypto/rand.Reader is replaced by a deterministic never-repeating stream whose Read is a scheduling point; every schedule with at most d non-default scheduling decisions is executed for s in 1..4 (and 5,6,7,9) files, W in 1..3 writers, five output forms; " +
 			"main's return is process exit: the scratch tree is examined at that instant (exactly random0..random(s-1).bin, n/8 bytes each, pairwise different, inside the requested directory, nothing elsewhere)",
 		"outcome_signatures":       sigs,
